@@ -22,6 +22,7 @@ var c02Specs = []famSpec{
 	{Family: "rectilinear", FreshQ: 3000, FreshT: 100000},
 	{Family: "rect-soup", Pool: 60000, PoolQ: 3000},
 	{Family: "rect-cavity", Pool: 60000, PoolQ: 3000},
+	{Family: "touching", Pool: 60000, PoolQ: 3000},
 	{Family: "nested-small", Pool: 30000, PoolQ: 1500},
 	{Family: "nested", FreshQ: 1500, FreshT: 50000},
 	{Family: "degenerate-wide", FreshQ: 1500, FreshT: 50000},
